@@ -9,6 +9,6 @@ CONSTANTS
   JumboInside = TRUE
   ExportUnspecLen = 3
   Variant = "code"
-INVARIANTS Refinement
+INVARIANTS Refinement IdempotentInv Tight RegionAgree RingInv
 ACTION_CONSTRAINT Export
 CHECK_DEADLOCK FALSE
